@@ -147,6 +147,10 @@ const rule = "a case counts as non-trivial when the endpoint under test consumed
 
 var journalPath string
 
+// violateHook, when set (parent process: fuzz crashers), receives the violations of a case
+// instead of the vlib.Run.
+var violateHook func(c *lib.Case) func(sig, kind, desc string)
+
 func runCase(r *vlib.Run, s *shard, d *deps, c *lib.Case) (x *lib.Ctx) {
 	if journalPath != "" {
 		b, _ := json.Marshal(c)
@@ -155,6 +159,9 @@ func runCase(r *vlib.Run, s *shard, d *deps, c *lib.Case) (x *lib.Ctx) {
 	tape := vlib.InstallRandTape(c.Seed)
 	csrand.Reader = tape
 	x = lib.NewCtx(r, c)
+	if violateHook != nil {
+		x.ViolateHook = violateHook(c)
+	}
 	s.Run(x, d)
 	if c.T != "meek_lite" {
 		x.EndCase()
@@ -377,7 +384,24 @@ func parent(r *vlib.Run) {
 	results := make([]res, len(shards))
 	var wg sync.WaitGroup
 	sem := make(chan struct{}, 14)
+	only := os.Getenv("C10_ONLY") // debugging aid: comma-separated shard names and/or "fuzz"
+	selected := func(name string) bool {
+		if only == "" {
+			return true
+		}
+		for _, n := range strings.Split(only, ",") {
+			if n == name {
+				return true
+			}
+		}
+		return false
+	}
 	for i := range shards {
+		if !selected(shards[i].Name) {
+			results[i].s = &shards[i]
+			results[i].cr = &childResult{}
+			continue
+		}
 		wg.Add(1)
 		go func(i int) {
 			defer wg.Done()
@@ -416,7 +440,7 @@ func parent(r *vlib.Run) {
 	}
 	wg.Wait()
 	var fz *fuzzOutcome
-	if r.Thorough() {
+	if r.Thorough() && selected("fuzz") {
 		fz = runFuzz(r)
 	}
 
